@@ -13,8 +13,13 @@ use crate::sym::*;
 pub fn guarded(f: impl FnOnce()) -> bool {
     let r = catch_unwind(AssertUnwindSafe(f));
     if r.is_err() {
-        w().tainted = true;
-        w().in_collect = false;
+        // a Trace panic changes no reference count: reference counting keeps reclaiming everything at once afterwards
+        if w().fault_kind == K_TRACE && w().fault_fired > 0 && !w().tainted {
+            w().tainted = true;
+            w().in_collect = false;
+        } else {
+            taint_after_panic();
+        }
         true
     } else {
         false
@@ -42,6 +47,13 @@ pub fn oracle_idle(base: u32) {
     collect_cycles();
     let e1 = state::executions_count().unwrap_or(0);
     check(e1 == e0 + 1, base + 42); // a later collection can start
+    // outside callbacks a unique Cc unwraps again (no phase flag is stuck)
+    match Cc::new(5u8).try_unwrap() {
+        Ok(v) => check(v == 5, base + 43),
+        Err(_) => check(false, base + 43),
+    }
+    // and new objects are due for finalization again
+    check(!Cc::new(6u8).already_finalized_compat() || !cfg!(feature = "finalization"), base + 44);
 }
 
 fn build(n: usize, slots: usize) {
@@ -64,6 +76,11 @@ fn build_from(n: usize, slots: usize, first: usize) {
 }
 
 fn continuation(n: usize, slots: usize, base: u32) {
+    for i in 0..MAXN {
+        if w().stash[i].is_some() && any_below(2) == 1 {
+            guarded(|| drop_stash(i));
+        }
+    }
     let op = any_below(3);
     if op != 0 {
         let i = any_below(n as u8) as usize;
@@ -91,6 +108,10 @@ fn panic_scenario_k(n: usize, slots: usize, sym_hist: bool, kmax: u8, two_faults
 }
 
 fn panic_scenario_f(n: usize, slots: usize, sym_hist: bool, kmax: u8, two_faults: bool, kinds: u8, first: usize) {
+    panic_scenario_g(n, slots, sym_hist, kmax, two_faults, kinds, first, false)
+}
+
+fn panic_scenario_g(n: usize, slots: usize, sym_hist: bool, kmax: u8, two_faults: bool, kinds: u8, first: usize, with_fin: bool) {
     build_from(n, slots, first);
     for i in 0..n {
         if !sym_hist || any_below(2) == 1 {
@@ -99,6 +120,13 @@ fn panic_scenario_f(n: usize, slots: usize, sym_hist: bool, kmax: u8, two_faults
         }
     }
     oracle_safety(100);
+    if with_fin {
+        // the finalizers of nodes 0 and 1 may resurrect their object; the finalize fault may fire after that action
+        for i in 0..2.min(n) {
+            w().fin_act[i] = if any_below(2) == 1 { F_STASH_SELF } else { F_NONE };
+        }
+        w().fault_late = any_below(2) == 1;
+    }
     // fault plan: kind is a control choice, the crash index is a solver variable compared against the running counter
     let kind = 1 + any_below(kinds);
     let k = any_u8();
@@ -175,6 +203,12 @@ pub fn h_panic_n4_trace() {
 #[no_mangle]
 pub fn h_panic_n4_q() {
     panic_scenario_f(4, 1, false, 4, false, 1, 2);
+}
+
+/// Finalizers that resurrect their object combined with a finalize fault before or after the resurrection.
+#[no_mangle]
+pub fn h_panic_fin_n2() {
+    panic_scenario_g(2, 1, true, 6, false, 3, 0, true);
 }
 
 #[no_mangle]
